@@ -39,7 +39,8 @@ UNPROVEN = ['pixelate: the call wiring (pixel, then rescale by 1/oversample, ord
             'smear(angle=None): the branch is regenerated and modelled (smearNone, compared with the implementation under a seeded global generator; '
             'smear_none_is_smear_at_drawn_angle); that exactly one uniform variate of the global generator is consumed is oracle only',
             'smear on even-sized axes: the deviation from the Hermitian-part convolution is bounded by the Nyquist row/column for the un-normalised and '
-            'the renormalised output (smear_even_axis_deviation, smear_renormalised_deviation); no closed form of the output there']
+            'the renormalised output (smear_even_axis_deviation, smear_renormalised_deviation; at most the mean modulus of the image spectrum on those lines: smear_deviation_le_nyquist_lines; exact when the image has no content there: smear_exact_when_nyquist_free); no closed form of the output otherwise, and nothing says the bound is small for a given image',
+            'the all-zero image: jitter/smear return nan (known finding KF-C19-zero-image-nan); no theorem covers it, the run reports it on every check']
 ASSUMPTIONS = ['images are non-negative with positive total: the all-zero image — a non-negative image the property\'s quantifier includes — makes jitter/smear return nan (0·0/0); it IS generated and reported as known finding KF-C19-zero-image-nan; the theorems exclude it (in ℝ x/0 = 0 would make them hold for the wrong reason); an image whose blurred total underflows to 0 (amplitudes below ~1e-154) behaves the same and is not generated',
                'images are 2-D arrays of shape at least 1x1 (a 1-D array raises IndexError, a 3-D array a broadcasting ValueError: observed by hand, not generated)',
                'pixelscale ≠ 0']
